@@ -11,6 +11,8 @@
 #include <AIToolbox/Bandit/Policies/QSoftmaxPolicy.hpp>
 #include <AIToolbox/Bandit/Policies/EpsilonPolicy.hpp>
 #include <AIToolbox/Bandit/Policies/RandomPolicy.hpp>
+#include <sys/wait.h>
+#include <unistd.h>
 #include <AIToolbox/Bandit/Policies/LRPPolicy.hpp>
 #include <AIToolbox/Bandit/Policies/ESRLPolicy.hpp>
 #include <AIToolbox/Bandit/Policies/SuccessiveRejectsPolicy.hpp>
@@ -805,7 +807,7 @@ static const double kScale[] = {1.0, 4.0, 5000.0, 0.5};
 static const double kLr[] = {0.0, 1.0 / 1024, 0.125, 0.5, 0.001, 2.0};
 static const double kPl[] = {0.0, 1.0, 3.0, 0.5};
 
-static const long kWitness = 8;
+static const long kWitness = 9;
 
 long verif::verif_ncases(const std::string & tier) { return kWitness + (tier == "thorough" ? 6000 : 420); }
 
@@ -850,6 +852,22 @@ static void witness(long idx) {
         emit_eps_mdp(Q, 0.25, 2);
         emit_softmax_bandit({B, 5.0, B + d}, 0.0, 3);
         emit_shift_greedy({B, B + d, 5.0}, std::ldexp(1.0, 26), 4);
+        break; }
+    case 8: { // one arm: every sampling policy must still return (TopTwoThompson looked for a challenger different from the only arm, forever)
+        auto probe = [](const char * comp, auto && call) {
+            int fd[2]; if (pipe(fd) != 0) return;
+            pid_t pid = fork();
+            if (pid == 0) { close(fd[0]); alarm(20); size_t a = call(); char buf[32]; int n = std::snprintf(buf, sizeof buf, "%zu", a); if (write(fd[1], buf, (size_t)n) < 0) _exit(3); _exit(0); }
+            close(fd[1]); char buf[32] = {0}; ssize_t n = read(fd[0], buf, sizeof buf - 1); close(fd[0]);
+            int st = 0; waitpid(pid, &st, 0);
+            Line l; l << "C09" << "term" << comp << "single_arm_sampleAction" << "|" << ((n > 0 && WIFEXITED(st) && WEXITSTATUS(st) == 0) ? std::string(buf) : std::string("no_return")); l.emit();
+        };
+        B::Experience e(1); e.record(0, 1.0); e.record(0, 0.5); e.record(0, 0.25);
+        for (double beta : {0.0, 0.5}) {
+            probe("TopTwoThompsonSamplingPolicy", [&]() { B::TopTwoThompsonSamplingPolicy p(e, beta); return p.sampleAction(); });
+            probe("T3CPolicy", [&]() { B::T3CPolicy p(e, beta, 1.0); return p.sampleAction(); });
+        }
+        probe("ThompsonSamplingPolicy", [&]() { B::ThompsonSamplingPolicy p(e); return p.sampleAction(); });
         break; }
     }
 }
